@@ -26,6 +26,7 @@ from .. import gen, install, loops
 from ..common import pick, shard_count
 
 META = {
+    'refill': True,      # chain cases presented in a reused buffer are followed by a refill of that buffer (runner)
     'rule': ('chains: 12 gen.curve families (x strictly increasing, float and integer) plus generated '
              'integer/dyadic curves (small-integer y, integer-slope piecewise-linear convex/concave/zigzag '
              'curves with collinear runs on every hull edge, fully collinear, n = 2, 3, 4..80; thorough up to '
@@ -346,6 +347,10 @@ def check_graham(ctx, points, result):
 
 
 # ---------------------------------------------------------------- setup
+
+def refill_ok(case):
+    return case.get('kind') == 'chain'       # graham_scan cases must stay on the integer lattice
+
 
 def setup(ctx, mods):
     def post_lower(ctx, original, args, kwargs, result):
